@@ -1097,5 +1097,231 @@ theorem check_refines (set : SortedSet) (acrhs : List Bytes) : check set acrhs =
     { start := 0, empties := 0 } (Nat.zero_le _)
   simpa using this
 
+theorem findPos_schemes (scheme : Bytes) (schemes : List (Bytes × List Int)) :
+    match findPos scheme (schemes.map Prod.fst) with
+    | none => lookupScheme scheme schemes = none
+    | some i => i < schemes.length ∧ lookupScheme scheme schemes = some ((schemes.map Prod.snd).getD i default) := by
+  induction schemes with
+  | nil => simp [findPos, lookupScheme]
+  | cons x rest ih =>
+    obtain ⟨s, ps⟩ := x
+    simp only [List.map_cons, findPos, lookupScheme]
+    by_cases hs : (s == scheme) = true
+    · simp [hs]
+    · simp only [hs, Bool.false_eq_true, if_false]
+      cases hf : findPos scheme (rest.map Prod.fst) with
+      | none => simp only [hf] at ih; simpa using ih
+      | some i =>
+        simp only [hf] at ih
+        simp only [Option.map_some]
+        exact ⟨by simp; omega, by rw [ih.2]; simp⟩
+
+theorem nodeContains_refines (schemes : List (Bytes × List Int)) (scheme : Bytes) (port : Int) (wild : Bool) :
+    nodeContains schemes scheme port wild = .ok (containsPort schemes scheme port wild) := by
+  unfold nodeContains containsPort
+  have h := findPos_schemes scheme schemes
+  cases hf : findPos scheme (schemes.map Prod.fst) with
+  | none => simp only [hf] at h; rw [h]; rfl
+  | some i =>
+    simp only [hf] at h
+    rw [h.2]
+    simp only []
+    rw [idxG_ok _ i (by simpa using h.1)]
+    rfl
+
+
+theorem stripPrefix_splitCommon (p : Bytes) : ∀ (s : Bytes),
+    stripPrefix p s = if (splitCommon s p).2.2.length = p.length then some (splitCommon s p).1 else none := by
+  induction p with
+  | nil => intro s; cases s <;> simp [stripPrefix, splitCommon]
+  | cons a p ih =>
+    intro s
+    cases s with
+    | nil => simp [stripPrefix, splitCommon]
+    | cons b s =>
+      simp only [stripPrefix, splitCommon]
+      by_cases hab : a = b
+      · subst hab
+        simp only [beq_self_eq_true, if_true]
+        rw [ih s]
+        cases hsp : splitCommon s p with
+        | mk ra rest =>
+          obtain ⟨rb, c⟩ := rest
+          simp
+      · have h1 : (a == b) = false := by simpa using hab
+        have h2 : (b == a) = false := by simpa using (fun h => hab h.symm)
+        simp [h1, h2]
+
+theorem findPos_kids (label : Nat) (kids : List (Nat × Node)) (host scheme : Bytes) (port : Int) :
+    containsKids kids label host scheme port =
+      match findPos label (kids.map Prod.fst) with
+      | none => false
+      | some i => childLookup ((kids.map Prod.snd).getD i default) host scheme port := by
+  induction kids with
+  | nil => simp [containsKids_nil, findPos]
+  | cons x rest ih =>
+    obtain ⟨l, c⟩ := x
+    simp only [List.map_cons, findPos]
+    rw [containsKids_cons]
+    by_cases hl : l = label
+    · subst hl
+      simp
+    · have h1 : (label == l) = false := by simpa using (fun h => hl h.symm)
+      have h2 : (l == label) = false := by simpa using hl
+      simp only [h1, h2, Bool.false_eq_true, if_false]
+      rw [ih]
+      cases hf : findPos label (rest.map Prod.fst) with
+      | none => rfl
+      | some i => simp
+
+theorem findPos_lt {α : Type} [BEq α] (x : α) (l : List α) (i : Nat) (h : findPos x l = some i) : i < l.length := by
+  induction l generalizing i with
+  | nil => simp [findPos] at h
+  | cons y ys ih =>
+    simp only [findPos] at h
+    split at h
+    · simp at h; subst h; simp
+    · cases hf : findPos x ys with
+      | none => simp [hf] at h
+      | some j =>
+        simp only [hf, Option.map_some, Option.some.injEq] at h
+        subst h
+        have := ih j hf
+        simp; omega
+
+theorem depth_kid (kids : List (Nat × Node)) (i : Nat) (h : i < kids.length) :
+    depth ((kids.map Prod.snd).getD i default) ≤ depthKids kids := by
+  induction kids generalizing i with
+  | nil => simp at h
+  | cons x rest ih =>
+    obtain ⟨l, c⟩ := x
+    rw [depthKids]
+    cases i with
+    | zero => simp; exact Nat.le_max_left _ _
+    | succ j =>
+      have := ih j (by simpa using h)
+      simp only [List.map_cons, List.getD_cons_succ]
+      exact Nat.le_trans this (Nat.le_max_right _ _)
+
+
+theorem treeLoop_refines : ∀ (fuel : Nat) (n : Node) (host scheme : Bytes) (port : Int), depth n < fuel →
+    treeLoop fuel n host scheme port = .ok (Node.contains n host.reverse scheme port) := by
+  intro fuel
+  induction fuel with
+  | zero => intro n host scheme port h; omega
+  | succ fuel ih =>
+    intro n host scheme port hd
+    cases n with
+    | mk nsuf S K =>
+      simp only [treeLoop, Node.schemes, Node.kids]
+      rw [lastByte_refines]
+      simp only [bind, Except.bind]
+      rcases List.eq_nil_or_concat host with rfl | ⟨pre, label, rfl⟩
+      · simp only [List.getLast?_nil, List.reverse_nil]
+        rw [contains_nil_host]
+        exact nodeContains_refines S scheme port false
+      · rw [List.concat_eq_append]
+        have hlast : (pre ++ [label]).getLast? = some label := by simp
+        have hrev : (pre ++ [label]).reverse = label :: pre.reverse := by simp
+        rw [hlast, hrev, contains_cons_host]
+        simp only []
+        rw [nodeContains_refines S scheme port true]
+        simp only []
+        cases hcp : containsPort S scheme port true with
+        | true => simp [pure, Except.pure]
+        | false =>
+          simp only [Bool.false_eq_true, if_false, Bool.false_or]
+          rw [findPos_kids]
+          cases hf : findPos label (K.map Prod.fst) with
+          | none => rfl
+          | some i =>
+            have hi : i < K.length := by
+              have := findPos_lt label (K.map Prod.fst) i hf
+              simpa using this
+            simp only []
+            rw [idxG_ok _ i (by simpa using hi)]
+            simp only []
+            rw [← hrev, splitAtCommonSuffix_refines, List.reverse_reverse]
+            simp only []
+            unfold childLookup
+            rw [stripPrefix_splitCommon]
+            cases hsp : splitCommon (pre ++ [label]).reverse ((K.map Prod.snd).getD i default).suf with
+            | mk ra rest =>
+              obtain ⟨rb, c⟩ := rest
+              simp only [List.length_reverse]
+              by_cases hlen : c.length = ((K.map Prod.snd).getD i default).suf.length
+              · simp only [hlen, bne_self_eq_false, Bool.false_eq_true, if_false, if_true]
+                have hdc : depth ((K.map Prod.snd).getD i default) < fuel := by
+                  have h1 := depth_kid K i hi
+                  rw [depth] at hd
+                  omega
+                have := ih ((K.map Prod.snd).getD i default) ra.reverse scheme port hdc
+                rw [List.reverse_reverse] at this
+                exact this
+              · have hne : (c.length != ((K.map Prod.snd).getD i default).suf.length) = true := by
+                  simpa using hlen
+                simp only [hne, if_true, hlen, if_false]
+                rfl
+
+/-- **Refinement.** `Tree.Contains` on the parallel slices of the nodes: `n.ports[i]` and `n.children[i]` (with `i`
+where `slices.BinarySearch` finds the scheme resp. the label), `lastByte` and `splitAtCommonSuffix` never go out of
+range, the loop ends after at most depth-of-the-tree iterations, and the answer is the list-level model's. -/
+theorem treeContains_refines (t : Node) (o : Origin) : treeContains t o = .ok (Tree.contains t o) :=
+  treeLoop_refines (depth t + 1) t o.host.value o.scheme o.port (by omega)
+
+
+/-- **Refinement.** `origins.Parse`. -/
+theorem parse_refines (str : Bytes) : parse str = .ok (Lex.parse str) := by
+  unfold parse Lex.parse
+  by_cases hl : str.length > Facts.origins_Parse_maxOriginLen
+  · simp only [hl, if_true]; rfl
+  · simp only [hl, if_false]
+    rw [parseScheme_refines]
+    simp only [bind, Except.bind]
+    cases Lex.parseScheme str with
+    | none => rfl
+    | some sr =>
+      obtain ⟨scheme, r1⟩ := sr
+      simp only []
+      cases r1.cutPrefix Facts.origins_schemeHostSep with
+      | none => rfl
+      | some r2 =>
+        simp only []
+        rw [fastParseHost_refines]
+        simp only []
+        cases Lex.fastParseHost r2 with
+        | none => rfl
+        | some hr =>
+          obtain ⟨host, r3⟩ := hr
+          simp only []
+          by_cases he : r3.isEmpty = true
+          · simp only [he, if_true]; rfl
+          · simp only [he, Bool.false_eq_true, if_false]
+            cases r3.cutPrefix [Facts.origins_hostPortSep] with
+            | none => rfl
+            | some r4 =>
+              simp only []
+              rw [parsePort_refines]
+              simp only []
+              cases Lex.parsePort r4 with
+              | none => rfl
+              | some pr =>
+                obtain ⟨port, rest⟩ := pr
+                simp only []
+                by_cases hr : rest.isEmpty = true
+                · simp only [hr, Bool.not_true, Bool.false_eq_true, if_false]; rfl
+                · simp only [hr, Bool.not_false, if_true]; rfl
+
+/-- **Refinement.** For every tree and every byte string in the `Origin` header: parsing it and looking it up
+never goes out of range, always ends, and decides what the list-level model decides. -/
+theorem originAllowed_refines (t : Node) (str : Bytes) :
+    originAllowed t str = .ok (match Lex.parse str with | none => false | some o => Tree.contains t o) := by
+  unfold originAllowed
+  rw [parse_refines]
+  simp only [bind, Except.bind]
+  cases Lex.parse str with
+  | none => rfl
+  | some o => exact treeContains_refines t o
+
 end Ix
 end Cors
